@@ -97,13 +97,16 @@ def forced_plan_history(ck):
         g = np.random.default_rng(ck.rng.randint(0, 2 ** 31))
         N = 4000
         x = g.standard_normal(N); y = 0.5 * x + g.standard_normal(N)
-        target = ck.rng.choice([40, 60, 100])
-        kw = dict(Jdes=target, Kdes=10, order=0, win="hann", olap=0.5, scheduler="ltf", force_target_nf=True)
-        mk = lambda: SpectrumAnalyzer((np.vstack([x, y]) if cross else x).copy(), 2.0, **kw)
-        try:
-            an = mk(); p0 = an.plan(); f0 = np.array(p0["f"], copy=True)
-        except Exception:
-            continue       # target not reachable for this record: C04's business
+        an = None
+        for target in (60, 40, 100, 25, 150):
+            kw = dict(Jdes=target, Kdes=10, order=0, win="hann", olap=0.5, scheduler="ltf", force_target_nf=True)
+            mk = lambda: SpectrumAnalyzer((np.vstack([x, y]) if cross else x).copy(), 2.0, **kw)
+            try:
+                an = mk(); p0 = an.plan(); f0 = np.array(p0["f"], copy=True); break
+            except Exception:
+                an = None      # target not reachable for this record: C04's business
+        if an is None:
+            continue
         ops = []
         for what, fn in (("plan()", lambda a: a.plan()["f"]), ("compute()", lambda a: a.compute()._data["f"]), ("plan()", lambda a: a.plan()["f"]),
                          ("compute_single_bin", lambda a: a.compute_single_bin(0.3, L=200)._data["XX"]), ("compute()", lambda a: a.compute()._data["XX"]), ("plan()", lambda a: a.plan()["f"])):
